@@ -439,7 +439,9 @@ fn replay_on(hist: &[J], inst: &Inst) -> Vec<Mismatch> {
                 if !exp_panic {
                     ms.push(Mismatch { prop: "C16", step: i, what: format!("{tag} panic in {}: {p}", a["a"]), panic: true });
                 }
-                std::mem::forget(sess); // the engine state may be inconsistent after a panic
+                // the engine state may be inconsistent after a panic: a second panic while it is
+                // torn down is of no interest (but the memory is: there are many such sessions)
+                let _ = drop_session(sess);
                 return ms;
             }
         };
@@ -629,7 +631,9 @@ fn record_run(run: usize, actions: &[J]) -> Vec<J> {
                     // this instance is dead from here on; the others continue
                     panic_lines.push(json!({"a": "panic", "run": run, "inst": inst.name(), "shape": inst.shape, "mt": inst.mt,
                         "msg": p, "during": a["a"]}));
-                    std::mem::forget(slot.take());
+                    if let Some(dead) = slot.take() {
+                        let _ = drop_session(dead);
+                    }
                 }
             }
         }
